@@ -1356,6 +1356,10 @@ class Mesh:
                 lambda x: np.linalg.norm(x - np.array(list(nodes))[:, None],
                                          axis=0) < 1e-12
             )
+        if isinstance(nodes, int):
+            # Make normalize_nodes([1,2,3]) have the same behavior as
+            # normalize_nodes(np.array([1,2,3]))
+            return np.array([nodes])
         if isinstance(nodes, ndarray):
             # assumed an array of nodes
             return nodes
